@@ -17,6 +17,12 @@ def key_of(line):
     return "cache:%s:%s" % (line["op"], kind)
 
 
+def agree(x):
+    if x["op"] == "overlap":
+        return all(vc == x["vu"] for vc in x["vcs"])
+    return x.get("vc", x.get("okc")) == x.get("vu", x.get("oku"))
+
+
 def run(tier, seed):
     t0 = time.time()
     v = vlib.Verdict(PROP)
@@ -30,6 +36,14 @@ def run(tier, seed):
         rn2 = vlib.tlc("MC_SigCache", cfg="MC_SigCache_neg2.cfg", cwd=d, workers=8, timeout=600)
         if rn2.status != "violation":
             raise vlib.InfraError("MC_SigCache negative control (single and batch verification in one key space) not refuted")
+        # overlapping requests: two critical sections per call
+        rc1 = vlib.tlc("MC_SigCacheConc", cwd=d, workers=8, timeout=600)
+        rc2 = vlib.tlc("MC_SigCacheConc", cfg="MC_SigCacheConc_c2.cfg", cwd=d, workers=8, timeout=600)
+        if rc1.status != "ok" or rc2.status != "ok":
+            raise vlib.InfraError("MC_SigCacheConc: %r %r" % (rc1, rc2))
+        rcn = vlib.tlc("MC_SigCacheConc", cfg="MC_SigCacheConc_neg.cfg", cwd=d, workers=8, timeout=600)
+        if rcn.status != "violation" or rcn.violated != "Transparent":
+            raise vlib.InfraError("MC_SigCacheConc negative control (key reserved before verification) not refuted")
         tr = os.path.join(d, "trace.ndjson")
         args = ["c11", "-out", tr, "-seed", seed]
         args += ["-seqs", 25, "-len", 60] if tier == "quick" else ["-seqs", 400, "-len", 120]
@@ -50,10 +64,10 @@ def run(tier, seed):
             while k > 0 and rows[k]["op"] != "new":
                 k -= 1
             v.violation(key_of(line), "cached and uncached authority disagree (%s, cached=%s uncached=%s): %s" % (
-                line["op"], line.get("vc", line.get("okc")), line.get("vu", line.get("oku")), str(line)[:400]),
+                line["op"], line.get("vc", line.get("vcs", line.get("okc"))), line.get("vu", line.get("oku")), str(line)[:400]),
                 {"line": l, "sequence": rows[k:l], "harness": "hsverif c11 -seed %d" % seed})
             kk = key_of(line)
-            rows2 = [x for x in rows if x["op"] in ("new", "sign") or key_of(x) != kk or x.get("vc", x.get("okc")) == x.get("vu", x.get("oku"))]
+            rows2 = [x for x in rows if x["op"] in ("new", "sign") or key_of(x) != kk or agree(x)]
             if len(rows2) == len(rows):
                 break
             rows = rows2
@@ -72,10 +86,14 @@ def run(tier, seed):
         "traces_validated_against_impl": ops.get("new", 0),
         "samples": [x for x in rows[:40] if x["op"] in ("verify", "batch")][:3],
         "evaluations": len(rows), "distinct_nontrivial": len({str(x.get("key")) + str(x.get("vu")) for x in rows if x["op"] in ("verify", "batch")}),
-        "rule": "seeded operation sequences (sign, verify, batch-verify, combine; replays with altered message, batch, view and signer labels) on a cached "
+        "rule": "seeded operation sequences (sign, verify, batch-verify, combine, overlapping verify/batch-verify calls for one signature, each started while "
+                "the earlier ones are inside the scheme's verification; replays with altered message, batch, view and signer labels) on a cached "
                 "(capacity 1..4 or 50) and an uncached real Authority of the same replica, ECDSA/EdDSA/BLS; distinct = distinct (cache key, verdict)",
         "ops": ops, "conformance": "ok" if not drift else "drift %s" % (drift,),
         "model": {"module": "MC_SigCache", "states": r.distinct, "negative_control_refuted": True},
+        "model_concurrent": {"module": "MC_SigCacheConc", "states": rc1.distinct + rc2.distinct, "negative_control_refuted": True},
+        "overlaps": {"lines": ops.get("overlap", 0), "both_reached_scheme": sum(1 for x in rows if x["op"] == "overlap" and all(x["reached"])),
+                     "invalid": sum(1 for x in rows if x["op"] == "overlap" and not x["vu"])},
         "checker_cmd": rt.cmd,
     }, time.time() - t0, violations=len(v.violations),
         assumptions=["signature objects are replayed with their entry boundaries intact (wire-level re-splitting of concatenated bytes is not generated)"])
